@@ -100,10 +100,15 @@ Plan gen_c06(uint64_t seed, int tier)
     size_t lo = static_cast<size_t>(nlong - 1);
     size_t pos = lo + r.below(static_cast<uint32_t>(main_ops.size() - lo + 1));
     std::vector<Op> frag;
-    if (r.chance(2, 3))
+    if (r.chance(2, 3) && !long_sleep)
     {
-      int64_t dur = (grace_ns ? grace_ns : 1000) * r.pick<int64_t>({2, 10, 50}) + r.range(0, 3000);
-      frag.push_back(Op{OP_STALL, -1, r.pick<int64_t>({5, 5, 5, 0, 1}), r.range(1, 12), dur});
+      // Stall the backend at a clock read that directly follows an atomic load of the same thread (the shape of
+      // "look for new thread contexts, then read the clock for this pass"), give it time to get there, and only then
+      // start the first-time thread. The stall covers thread start + first statement + join + the flush request.
+      int64_t reach = p.cfg["sleep_ns"] + p.cfg["delta_ns"] * r.pick<int64_t>({60, 200});
+      int64_t dur = reach + p.cfg["delta_ns"] * r.pick<int64_t>({600, 1500, 4000}) + (grace_ns ? grace_ns : 1000) * 2 + r.range(0, 3000);
+      frag.push_back(Op{OP_STALL, -1, r.pick<int64_t>({5 + 256 * 1, 5 + 256 * 1, 5 + 256 * 1, 5, 0}), r.range(1, 3), dur});
+      frag.push_back(Op{OP_SLEEP, reach});
     }
     frag.push_back(Op{OP_SPAWN, t});
     if (r.chance(3, 4))
